@@ -142,6 +142,20 @@ pub fn flatten_draws(real: &RealTrace) -> Vec<crate::refint::Draw> {
 
 pub const REAL_STEP_CAP: usize = 450;
 
+/// Would the program finish within the budgets (draws faked at their maximum)? Monitors that run
+/// the real crate without a full reference history ask this first, so that a program which
+/// legitimately spins for ages inside one next() is never handed to the crate.
+pub fn preflight_ok(case: &Case, acc: &mut Acc) -> bool {
+    let pre = RefOpts { fake_draws: true, max_rows: 300, max_steps: 4000, ..Default::default() };
+    match refint::run(&case.program, &case.signals, &case.script, pre) {
+        RefOutcome::Inconclusive(why) if !why.starts_with("let rebinds") => {
+            acc.inconclusive(&format!("reference pre-flight: {why}"));
+            false
+        }
+        _ => true,
+    }
+}
+
 /// Reference first (its verdict on feasibility decides whether the case is run at all),
 /// then the real crate with the same script. For programs using `random` the real run goes
 /// first (seed pinned through the hook) and the reference replays its draw log.
@@ -149,6 +163,14 @@ pub const REAL_STEP_CAP: usize = 450;
 pub fn standard_run(case: &Case, acc: &mut Acc, opts: Option<RefOpts>) -> Option<Ran> {
     let pr = pp::print(&case.program, &case.layout_opts);
     if case.program.uses_random() {
+        // pre-flight: would the program finish within the budgets if every draw came out as
+        // large as it can? If not, the real crate is not run at all (it could spin for ages
+        // inside one next(), legitimately).
+        let pre = RefOpts { fake_draws: true, max_rows: 300, max_steps: 4000, ..Default::default() };
+        if let RefOutcome::Inconclusive(why) = refint::run(&case.program, &case.signals, &case.script, pre) {
+            acc.inconclusive(&format!("reference pre-flight: {why}"));
+            return None;
+        }
         let real = run_text(
             &pr.text,
             &case.signals,
